@@ -892,6 +892,12 @@ func (la *lockAnalysis) ruleSingleSection(r *Rep, rule string, methods []*ssa.Fu
 						sites = append(sites, ins)
 					}
 				}
+				// a helper on the same receiver that takes the receiver's mutex is a
+				// critical section of its own (a duplicate test moved into `holds(base)`
+				// under the read lock, the insertion left under the write lock)
+				if g := staticCallee(&call.Call); g != nil && g.Blocks != nil && g.Pkg == f.Pkg && len(call.Call.Args) > 0 && len(f.Params) > 0 && call.Call.Args[0] == ssa.Value(f.Params[0]) && acquiresOwnMutex(g, 0) {
+					sites = append(sites, ins)
+				}
 			}
 		})
 		r.Instance(rule, 1)
@@ -931,4 +937,29 @@ func canonBase(v ssa.Value) ssa.Value {
 		}
 	}
 	return v
+}
+
+// acquiresOwnMutex: g locks a mutex field of its receiver, itself or through a
+// callee on the same receiver (two levels).
+func acquiresOwnMutex(g *ssa.Function, depth int) bool {
+	if g == nil || g.Blocks == nil || len(g.Params) == 0 || depth > 2 {
+		return false
+	}
+	found := false
+	allInstrs(g, func(ins ssa.Instruction) {
+		call, ok := ins.(*ssa.Call)
+		if !ok || found {
+			return
+		}
+		if op, ok := mutexOp(&call.Call); ok && op.acquire {
+			if k, ok := mutexOfCall(&call.Call); ok && k.base == g.Params[0] {
+				found = true
+				return
+			}
+		}
+		if h := staticCallee(&call.Call); h != nil && h != g && h.Pkg == g.Pkg && len(call.Call.Args) > 0 && call.Call.Args[0] == ssa.Value(g.Params[0]) && acquiresOwnMutex(h, depth+1) {
+			found = true
+		}
+	})
+	return found
 }
